@@ -105,8 +105,10 @@ def gen(rng, tier):
             else:  # websocket
                 by_tag.pop(str(tags[0]))
                 # the tokens of Connection / Upgrade are a list: order, case and optional whitespace do not matter
-                opening = ws.handshake(path=b"/t%d" % tags[0], connection=rng.choice([b"Upgrade", b"keep-alive, Upgrade", b"keep-alive ,\tUpgrade ", b"upgrade,keep-alive"]),
-                                       upgrade=rng.choice([b"websocket", b"WebSocket"]))
+                # ... and a header repeated on several lines is the same list (RFC 7230 3.2.2)
+                conn_hdr = rng.choice([b"Upgrade", b"keep-alive, Upgrade", b"keep-alive ,\tUpgrade ", b"upgrade,keep-alive", b"Upgrade\r\nConnection: keep-alive",
+                                   b"keep-alive\r\nConnection: Upgrade"])
+                opening = ws.handshake(path=b"/t%d" % tags[0], connection=conn_hdr, upgrade=rng.choice([b"websocket", b"WebSocket"]))
                 trailing = b""
                 # frames only after acceptance: fed as a second step
                 truth.update(proto="ws", version="1.1", frames=[ws.message_frames(ws.OP_TEXT, b"hello-%d" % base), ws.close_frame(1000)])
